@@ -90,6 +90,76 @@ fn normal_form(e: &Expr) -> String {
     }
 }
 
+/// The same program with every quoted string / regex literal written raw and every raw one
+/// quoted (hex literals stay); `None` if nothing changes.
+fn flip_literal_forms(e: &Expr) -> Option<Expr> {
+    fn form(b: &[u8], f: BytesForm, changed: &mut bool) -> BytesForm {
+        match f {
+            BytesForm::Quoted => match (0u8..=3).find(|n| raw_form_ok(b, *n)) {
+                Some(n) => {
+                    *changed = true;
+                    BytesForm::Raw(n)
+                }
+                None => f,
+            },
+            BytesForm::Raw(_) => {
+                *changed = true;
+                BytesForm::Quoted
+            }
+            BytesForm::Hex(_) => f,
+        }
+    }
+    fn lit(l: &Lit, c: &mut bool) -> Lit {
+        match l {
+            Lit::Bytes(b, f) => Lit::Bytes(b.clone(), form(b, *f, c)),
+            other => other.clone(),
+        }
+    }
+    fn lhs(l: &Lhs, c: &mut bool) -> Lhs {
+        let id = match &l.id {
+            Ident::Field(n) => Ident::Field(n.clone()),
+            Ident::Call(n, args) => Ident::Call(
+                n.clone(),
+                args.iter()
+                    .map(|a| match a {
+                        Arg::Lhs(x) => Arg::Lhs(lhs(x, c)),
+                        Arg::Lit(x) => Arg::Lit(lit(x, c)),
+                        Arg::Logical(x) => Arg::Logical(expr(x, c)),
+                    })
+                    .collect(),
+            ),
+        };
+        Lhs { id, path: l.path.clone() }
+    }
+    fn expr(e: &Expr, c: &mut bool) -> Expr {
+        match e {
+            Expr::IsTrue(l) => Expr::IsTrue(lhs(l, c)),
+            Expr::Cmp { lhs: l, op, rhs } => {
+                let r = match rhs {
+                    Rhs::Lit(x) => Rhs::Lit(lit(x, c)),
+                    Rhs::Regex(p, f) => Rhs::Regex(p.clone(), form(p.as_bytes(), *f, c)),
+                    Rhs::BytesSet(v) => Rhs::BytesSet(v.iter().map(|(b, f)| (b.clone(), form(b, *f, c))).collect()),
+                    other => other.clone(),
+                };
+                Expr::Cmp { lhs: lhs(l, c), op: *op, rhs: r }
+            }
+            Expr::Not(x) => Expr::Not(Box::new(expr(x, c))),
+            Expr::Paren(x) => Expr::Paren(Box::new(expr(x, c))),
+            Expr::Chain(op, items) => Expr::Chain(*op, items.iter().map(|x| expr(x, c)).collect()),
+            Expr::Quant(q, a) => Expr::Quant(
+                *q,
+                Box::new(match &**a {
+                    QArg::Lhs(l) => QArg::Lhs(lhs(l, c)),
+                    QArg::Logical(x) => QArg::Logical(expr(x, c)),
+                }),
+            ),
+        }
+    }
+    let mut changed = false;
+    let out = expr(e, &mut changed);
+    if changed { Some(out) } else { None }
+}
+
 pub fn run(tier: Tier, seed: u64) -> i32 {
     let run = Run::new(ID, "exploration", tier, seed);
     run.assume("expected JSON documents come from the reference serialiser (sem::expr_json); whitespace alphabet: space, CR, LF between tokens, any Unicode whitespace around the filter");
@@ -222,6 +292,34 @@ pub fn run(tier: Tier, seed: u64) -> i32 {
                                 *rsh == sh
                             ),
                             case_json(&tag, "spelling-pair", text, json!(e), None, json!({"other": texts[0]})),
+                        );
+                    }
+                }
+            }
+        }
+        // the same program with its string / regex literals written in the other form (quoted <->
+        // raw): whether that is the *same* AST is the engine's choice, but if the two compare equal
+        // they must agree on everything derived from the AST (JSON, C hash, Hash)
+        if let (Some((rast, rjs, rfh, rsh)), Some(flipped)) = (&reference, flip_literal_forms(e)) {
+            let ftext = render(&flipped);
+            if let Ok(Ok(fast)) = guarded(|| scheme.parse(&ftext).map_err(|e| e.to_string())) {
+                run.eval(1);
+                run.count("literal_form_variants", 1);
+                if fast == *rast {
+                    run.count("literal_form_variants_with_equal_ast", 1);
+                    let fjs = serde_json::to_string(&fast).unwrap_or_default();
+                    let (ffh, fsh) = (ffi_hash(&fast), std_hash(&fast));
+                    if fjs != *rjs || ffh != *rfh || fsh != *rsh {
+                        run.violation(
+                            format!("{ID}:equal-asts-differ:{}", render(e)),
+                            format!(
+                                "{:?} and {ftext:?} parse to equal ASTs but differ in what is derived from them (json equal: {}, C hash equal: {}, Hash equal: {})",
+                                texts[0],
+                                fjs == *rjs,
+                                ffh == *rfh,
+                                fsh == *rsh
+                            ),
+                            case_json(&tag, "spelling-pair", &ftext, json!(e), None, json!({"other": texts[0]})),
                         );
                     }
                 }
